@@ -128,3 +128,13 @@ def x_try(a: int, items: list):
 
 def x_chain_cmp(a: int, b: int, c: int):
     return (a < b < c, a <= b >= c, a == b != c, a in (b, c), a not in [b, c], 0 <= a < 10)
+
+
+def x_max_min_star(a: int, items: list):
+    # max/min with explicit arguments and a starred list (Columns.rows: max(1, *heights))
+    return (max(a, *items), min(a, 7, *items))
+
+
+def x_sum_filtered(items: list, d: int, k: int):
+    # sum of a filtered, mapped generator over a slice (Columns.get_cursor_coords)
+    return sum(d + w for w in items[:k] if w > 0)
